@@ -455,6 +455,15 @@ func tryReplay(eng *Engine, verif string, o *Obligation) *replayResult {
 	if fn == nil || fc == nil || fn.Pkg == nil || fn.Parent() != nil {
 		return &replayResult{note: "no generic replay driver for closures / functions without package"}
 	}
+	// never execute functions that perform external effects (real syscalls on model paths) in a generic replay
+	if len(fc.Effects) > 0 {
+		return &replayResult{note: "function performs external effects; a generic replay would issue real syscalls with model arguments — not executed"}
+	}
+	for _, m := range fc.Modifies {
+		if m == "heap" || m == "all" {
+			return &replayResult{note: "function calls code without contracts; no generic replay"}
+		}
+	}
 	rb := &rebuilder{vc: vc, fr: fr, model: o.Model, pkg: fn.Pkg.Pkg, byAddr: map[string]string{}}
 	var args []string
 	var recv string
@@ -494,6 +503,15 @@ func tryReplay(eng *Engine, verif string, o *Obligation) *replayResult {
 		}
 		checks = append(checks, chk{label, code, c.Src})
 	}
+	var reqs []chk
+	for k, c := range fc.Requires {
+		g.ok, g.reason = true, ""
+		code := g.expr(c.E)
+		if !g.ok {
+			return &replayResult{note: "precondition `" + c.Src + "` has no executable counterpart; model not replayed"}
+		}
+		reqs = append(reqs, chk{fmt.Sprint(k), code, c.Src})
+	}
 	nres := fn.Signature.Results().Len()
 	var resNames []string
 	var resBinds []string
@@ -528,6 +546,9 @@ func tryReplay(eng *Engine, verif string, o *Obligation) *replayResult {
 	}
 	for _, od := range g.olds {
 		fmt.Fprintf(body, "\t%s\n", od)
+	}
+	for _, c := range reqs {
+		fmt.Fprintf(body, "\tif !(%s) {\n\t\tfmt.Println(\"GOVC-REPLAY-PRECONDITION-NOT-MET: \" + %q)\n\t\treturn\n\t}\n", c.code, c.src)
 	}
 	fmt.Fprintf(body, "\t%s\n", call)
 	for _, b := range resBinds {
@@ -581,6 +602,8 @@ func tryReplay(eng *Engine, verif string, o *Obligation) *replayResult {
 	outs := out.String()
 	rr := &replayResult{test: test, output: outs}
 	switch {
+	case strings.Contains(outs, "GOVC-REPLAY-PRECONDITION-NOT-MET"):
+		rr.note = "the rebuilt input does not satisfy the function's precondition (model detail lost in reconstruction)"
 	case strings.Contains(outs, "GOVC-REPLAY-VIOLATION") || strings.Contains(outs, "GOVC-REPLAY-PANIC"):
 		rr.reproduced = true
 		rr.note = "the real function, run on the solver's model, breaks its contract"
